@@ -54,12 +54,26 @@ def select_edges(edges, per_class, seed, extra=0):
     if extra and rest: chosen += rnd.sample(rest, min(extra, len(rest)))
     return chosen
 
-def write_behaviours(path, model, cfg, edges, only_last=True):
-    with open(path, "w") as f:
-        for k, e in enumerate(edges):
-            b = {"id": "%s-%d" % (model, k), "cfg": cfg, "steps": e["steps"]}
-            if only_last: b["record_from"] = len(e["steps"])
-            f.write(json.dumps(b, ensure_ascii=False) + "\n")
+def write_behaviours(path, model, cfg, edges, only_last=True, bundle=True):
+    """one behaviour per transition, recording only its final step; transitions that leave the same state and change nothing
+       (queries, refusals: sig.changes empty) are bundled into one behaviour - each is still judged from that same state"""
+    n = 0
+    with open(path, "w", encoding="utf-8") as f:
+        groups = {}
+        for e in edges:
+            if bundle and only_last and e.get("sig") is not None and not e["sig"].get("changes") and len(e["steps"]) > 1:
+                groups.setdefault(json.dumps(e["steps"][:-1], sort_keys=True), []).append(e)
+            else:
+                b = {"id": "%s-%d" % (model, n), "cfg": cfg, "steps": e["steps"]}
+                if only_last: b["record_from"] = len(e["steps"])
+                f.write(json.dumps(b, ensure_ascii=False) + "\n"); n += 1
+        for key, es in groups.items():
+            prefix = es[0]["steps"][:-1]
+            for k in range(0, len(es), 40):
+                chunk = es[k:k + 40]
+                b = {"id": "%s-%d" % (model, n), "cfg": cfg, "steps": prefix + [e["steps"][-1] for e in chunk], "record_from": len(prefix) + 1}
+                f.write(json.dumps(b, ensure_ascii=False) + "\n"); n += 1
+    return n
 
 def shard_file(path, n):
     lines = [l for l in open(path) if l.strip()]
